@@ -1,7 +1,47 @@
 import SshAudit.Driver.WireOps
+import SshAudit.Model.Banner
 namespace SshAudit.Driver
+open SshAudit SshAudit.Banner
 
-/-- line-protocol operations of the Banner model (stub; filled in when the model lands) -/
-def bannerOp (_op : String) (_args : List String) : Option J := none
+def jbanner (b : Banner.Banner) : J := .obj [
+  ("protocol", .arr [.nat b.protocol.1, .nat b.protocol.2]),
+  ("software", J.ofOpt .str b.software),
+  ("comments", J.ofOpt .str b.comments),
+  ("valid", .bool b.validAscii),
+  ("str", .str (render b))]
+
+def jgroups (g : Groups) : J := .obj [
+  ("pairs", .arr (g.pairs.map fun p => .arr [.str [p.1], .str p.2])),
+  ("g2", J.ofOpt .str g.g2), ("g3", J.ofOpt .str g.g3), ("g4", J.ofOpt .str g.g4)]
+
+def jresult (r : Banner.Result) : J := .obj [
+  ("banner", J.ofOpt jbanner r.banner), ("header", J.ofStrs r.header), ("unread", J.ofBytes r.unread)]
+
+/-- all code points below `n` on which `p` holds (for the whitespace-table comparison) -/
+def codePointsWhere (p : Char → Bool) (n : Nat) : List Nat :=
+  (List.range n).filter (fun i => !(decide (0xd800 ≤ i) && decide (i < 0xe000)) && p (Char.ofNat i))
+
+/-- line-protocol operations of the Banner model -/
+def bannerOp (op : String) (args : List String) : Option J :=
+  match op, args with
+  | "banner.parse", [s] => do let s ← decStr s; pure (jok (J.ofOpt jbanner (parse s)))
+  | "banner.rx", [s] => do let s ← decStr s; pure (jok (J.ofOpt jgroups (rxBanner s)))
+  | "banner.reparse", [s] => do
+      let s ← decStr s
+      pure (jok (J.ofOpt (fun b => J.ofOpt jbanner (parse (render b))) (parse s)))
+  | "banner.render", [a, b, sw, cm] => do
+      let a ← decNat a; let b ← decNat b; let sw ← decOptStr sw; let cm ← decOptStr cm
+      pure (jok (.str (render { protocol := (a, b), software := sw, comments := cm, validAscii := true })))
+  | "ascii.is", [s] => do let s ← decStr s; pure (jok (.bool (isAscii s)))
+  | "ascii.to", [s] => do let s ← decStr s; pure (jok (.str (toAscii s)))
+  | "ascii.to_ignore", [s] => do let s ← decStr s; pure (jok (.str (toAsciiBy isAsciiCode true s)))
+  | "ascii.is_print", [s] => do let s ← decStr s; pure (jok (.bool (isPrintAscii s)))
+  | "ascii.to_print", [s] => do let s ← decStr s; pure (jok (.str (toPrintAscii s)))
+  | "ascii.to_print_ignore", [s] => do let s ← decStr s; pure (jok (.str (toAsciiBy isPrintCode true s)))
+  | "utf8.decode", [h] => do let b ← decBytes h; pure (jok (.str (utf8Decode b)))
+  | "readlines", [h] => do let b ← decBytes h; pure (jok (J.ofStrs ((splitLines b).map lineText)))
+  | "uspace.table", [] => pure (jok (.arr ((codePointsWhere isUSpace 0x110000).map J.nat)))
+  | "getbanner", [l] => do let cs ← decBytesList l; pure (jok (jresult (getBanner [] cs)))
+  | _, _ => none
 
 end SshAudit.Driver
